@@ -45,6 +45,9 @@ type c16Case struct {
 	// that the 32-bit one's-complement sum over pseudo header, UDP header and payload has 0xffff in its low half:
 	// folding it needs two end-around carries (the classic slip of checksum code)
 	Carry []int `json:"carry,omitempty"`
+	// ExporterIsTarget: the exporter's address is the mirror target's own address (a collector that also exports,
+	// or a mirror pointed back at a source): the IP source must still be the exporter's
+	ExporterIsTarget bool `json:"exporter_is_target,omitempty"`
 }
 
 const c16Rule = "case = protocol (ipfix | sflow), max-udp-size 64..65507 (biased to 1500; the other protocols' size setting drawn independently), 1..4 workers, IPv4 exporter address in 4-octet or 16-octet form, mirror target 127.x.y.z:port, " +
@@ -145,6 +148,7 @@ func genC16(t *rapid.T, envs map[string]*wire.GenEnv) c16Case {
 	shard, _ := strconv.Atoi(os.Getenv("VERIF_SHARD_INDEX"))
 	c.Target = []byte{127, byte(1 + shard%200), byte(rapid.IntRange(0, 255).Draw(t, "t2")), byte(rapid.IntRange(2, 254).Draw(t, "t3"))}
 	c.Port = rapid.IntRange(1024, 65535).Draw(t, "port")
+	c.ExporterIsTarget = rapid.IntRange(0, 9).Draw(t, "exporteristarget") == 0
 	if c.Proto == "ipfix" && c.UDPSize >= 200 {
 		c.Toggle = rapid.SampledFrom([]string{"", "", "off-on", "on-off"}).Draw(t, "toggle")
 	}
@@ -217,6 +221,14 @@ func runC16(c *c16Case) (v verdict, sig string, err error) {
 		n, _ := strconv.Atoi(si)
 		c.Target = append(wire.Hex{}, c.Target...)
 		c.Target[1] = byte(1 + n%200)
+	}
+	if c.ExporterIsTarget {
+		if len(c.Exporter) == 4 {
+			c.Exporter = append(wire.Hex{}, c.Target...)
+		} else {
+			c.Exporter = wire.Hex(net.IP(c.Target).To16())
+		}
+		v.label(true, "exporter-address-equals-mirror-target")
 	}
 	src4 := net.IP(c.Exporter).To4()
 	near, empty := false, false
